@@ -404,4 +404,130 @@ theorem delStale_fixed (name : String) (latest : Nat) : ∀ (names : List String
         rw [Store_del_absent _ _ (h x (List.mem_cons_self ..) id hx hs)]
         exact delStale_fixed name latest r s hr
 
+/-! ### clean-up of ALL monitors twice = once -/
+
+abbrev MONP := CHANNEL_MONITOR_PERSISTENCE_PRIMARY_NAMESPACE
+abbrev MONS := CHANNEL_MONITOR_PERSISTENCE_SECONDARY_NAMESPACE
+
+theorem cleanupTo_eq_loop (sc : Sched) (hok : ∀ i, sc.ok i = true) (w : World St Upd) (name : String) (latest : Nat) (lz : Bool) :
+    cleanupTo sc w name latest lz = cleanupLoop sc name latest lz (w.store.names UPD name) (kList sc w UPD name).1 := by
+  unfold cleanupTo
+  have : (kList sc w UPD name).2 = some (w.store.names UPD name) := by simp [kList, hok]
+  simp only [this]
+
+theorem cleanupTo_healthy (sc : Sched) (hok : ∀ i, sc.ok i = true) (heff : ∀ i, sc.eff i = true) (w : World St Upd)
+    (name : String) (latest : Nat) (lz : Bool) :
+    ((cleanupTo sc w name latest lz).2 = true ↔ ∀ nm ∈ w.store.names UPD name, (nm.toNat?).isSome = true) ∧
+    ((cleanupTo sc w name latest lz).2 = true →
+      (cleanupTo sc w name latest lz).1.store = delStale name latest (w.store.names UPD name) w.store) := by
+  rw [cleanupTo_eq_loop sc hok]
+  refine ⟨⟨cleanupLoop_true_parses sc name latest lz _ _, fun h => (cleanupLoop_healthy sc hok heff name latest lz _ _ h).1⟩, ?_⟩
+  intro h
+  exact (cleanupLoop_healthy sc hok heff name latest lz _ (kList sc w UPD name).1 (cleanupLoop_true_parses sc name latest lz _ _ h)).2
+
+/-- the store only loses entries, and no monitor entry -/
+def Shrink (s s' : PStore St Upd) : Prop :=
+  (∀ k, s.get k = none → s'.get k = none) ∧ (∀ p sn n, n ∈ s'.names p sn → n ∈ s.names p sn) ∧
+  (∀ nm, s'.get (monKey nm) = s.get (monKey nm))
+
+theorem Shrink.refl (s : PStore St Upd) : Shrink s s := ⟨fun _ h => h, fun _ _ _ h => h, fun _ => rfl⟩
+theorem Shrink.trans {s s' s'' : PStore St Upd} (h1 : Shrink s s') (h2 : Shrink s' s'') : Shrink s s'' :=
+  ⟨fun k h => h2.1 k (h1.1 k h), fun p sn n h => h1.2.1 p sn n (h2.2.1 p sn n h), fun nm => (h2.2.2 nm).trans (h1.2.2 nm)⟩
+
+theorem shrink_delStale (name : String) (latest : Nat) : ∀ (names : List String) (s : PStore St Upd), Shrink s (delStale name latest names s)
+  | [], s => Shrink.refl s
+  | x :: r, s => by
+    rw [delStale_cons]
+    refine Shrink.trans ?_ (shrink_delStale name latest r _)
+    cases x.toNat? with
+    | none => exact Shrink.refl s
+    | some id =>
+      simp only
+      split
+      · exact ⟨fun k h => Store_get_del_none _ _ _ h, fun p sn n h => Store_mem_names_del _ _ _ _ _ h,
+          fun nm => Store.get_del_ne _ (monKey_ne_updKey nm name id)⟩
+      · exact Shrink.refl s
+
+/-- monitor `nm` has nothing left to clean in `s` -/
+def Done (cfg : Cfg St Upd) (nm : String) (s : PStore St Upd) : Prop :=
+  cfg.nameOk nm = true ∧ ∃ v m, s.get (monKey nm) = some v ∧ decodeMon nm v = .ok m ∧
+    (∀ x ∈ s.names UPD nm, (x.toNat?).isSome = true) ∧
+    (∀ x ∈ s.names UPD nm, ∀ id, x.toNat? = some id → staleFilter id m.id = true → s.get (updKey nm id) = none)
+
+theorem Done.shrink {cfg : Cfg St Upd} {nm : String} {s s' : PStore St Upd} (h : Done cfg nm s) (hs : Shrink s s') : Done cfg nm s' := by
+  obtain ⟨h1, v, m, h2, h3, h4, h5⟩ := h
+  refine ⟨h1, v, m, by rw [hs.2.2 nm]; exact h2, h3, fun x hx => h4 x (hs.2.1 _ _ _ hx), ?_⟩
+  intro x hx id hp hst
+  exact hs.1 _ (h5 x (hs.2.1 _ _ _ hx) id hp hst)
+
+theorem kRead_healthy (sc : Sched) (hok : ∀ i, sc.ok i = true) (w : World St Upd) (k : Key) :
+    (kRead sc w k).2 = w.store.get k ∧ (kRead sc w k).1.store = w.store := ⟨by simp [kRead, hok], rfl⟩
+
+/-- first run: every listed monitor ends up `Done` -/
+theorem cleanupStaleLoop_done (cfg : Cfg St Upd) (sc : Sched) (hok : ∀ i, sc.ok i = true) (heff : ∀ i, sc.eff i = true) (lz : Bool) :
+    ∀ (mons : List String) (w : World St Upd), (cleanupStaleLoop cfg sc lz mons w).2 = true →
+      Shrink w.store (cleanupStaleLoop cfg sc lz mons w).1.store ∧ ∀ nm ∈ mons, Done cfg nm (cleanupStaleLoop cfg sc lz mons w).1.store
+  | [], w, _ => ⟨Shrink.refl _, fun _ h => by simp at h⟩
+  | nm :: rest, w, h => by
+    unfold cleanupStaleLoop at h ⊢
+    by_cases hn : cfg.nameOk nm = true
+    · simp only [hn, Bool.not_true, Bool.false_eq_true, if_false] at h ⊢
+      obtain ⟨hr2, hr1⟩ := kRead_healthy sc hok w (monKey nm)
+      cases hv : (kRead sc w (monKey nm)).2 with
+      | none => rw [hv] at h; exact Bool.noConfusion h
+      | some v =>
+        rw [hv] at h
+        simp only [hv] at h ⊢
+        cases hd : decodeMon nm v with
+        | error e => rw [hd] at h; exact Bool.noConfusion h
+        | ok m =>
+          rw [hd] at h
+          simp only at h ⊢
+          cases hc : (cleanupTo sc (kRead sc w (monKey nm)).1 nm m.id lz).2 with
+          | false => rw [hc] at h; exact Bool.noConfusion h
+          | true =>
+            rw [hc] at h
+            simp only [if_true] at h ⊢
+            obtain ⟨hA, hB⟩ := cleanupTo_healthy sc hok heff (kRead sc w (monKey nm)).1 nm m.id lz
+            have hstore := hB hc
+            rw [hr1] at hstore
+            have hparse := hA.mp hc
+            rw [hr1] at hparse
+            obtain ⟨ih1, ih2⟩ := cleanupStaleLoop_done cfg sc hok heff lz rest _ h
+            have hsh : Shrink w.store (cleanupTo sc (kRead sc w (monKey nm)).1 nm m.id lz).1.store := by
+              rw [hstore]; exact shrink_delStale nm m.id _ _
+            have hdone : Done cfg nm (cleanupTo sc (kRead sc w (monKey nm)).1 nm m.id lz).1.store := by
+              rw [hstore]
+              refine ⟨hn, v, m, ?_, hd, ?_, ?_⟩
+              · rw [(shrink_delStale nm m.id _ w.store).2.2 nm, ← hr2, hv]
+              · intro x hx; exact hparse x (delStale_names_sub nm m.id x _ _ hx)
+              · intro x hx id hp hst
+                exact delStale_removed nm m.id _ _ x id (delStale_names_sub nm m.id x _ _ hx) hp hst
+            refine ⟨hsh.trans ih1, ?_⟩
+            intro nm' hnm'
+            rcases List.mem_cons.mp hnm' with rfl | hnm'
+            · exact hdone.shrink ih1
+            · exact ih2 nm' hnm'
+    · simp [hn] at h
+
+/-- second run: nothing to do -/
+theorem cleanupStaleLoop_noop (cfg : Cfg St Upd) (sc : Sched) (hok : ∀ i, sc.ok i = true) (heff : ∀ i, sc.eff i = true) (lz : Bool) :
+    ∀ (mons : List String) (w : World St Upd), (∀ nm ∈ mons, Done cfg nm w.store) →
+      (cleanupStaleLoop cfg sc lz mons w).2 = true ∧ (cleanupStaleLoop cfg sc lz mons w).1.store = w.store
+  | [], _, _ => ⟨rfl, rfl⟩
+  | nm :: rest, w, h => by
+    obtain ⟨hn, v, m, h2, h3, h4, h5⟩ := h nm (List.mem_cons_self ..)
+    obtain ⟨hr2, hr1⟩ := kRead_healthy sc hok w (monKey nm)
+    obtain ⟨hA, hB⟩ := cleanupTo_healthy sc hok heff (kRead sc w (monKey nm)).1 nm m.id lz
+    have hc : (cleanupTo sc (kRead sc w (monKey nm)).1 nm m.id lz).2 = true := hA.mpr (by rw [hr1]; exact h4)
+    have hstore : (cleanupTo sc (kRead sc w (monKey nm)).1 nm m.id lz).1.store = w.store := by
+      rw [hB hc, hr1]
+      exact delStale_fixed nm m.id _ _ h5
+    have ih := cleanupStaleLoop_noop cfg sc hok heff lz rest (cleanupTo sc (kRead sc w (monKey nm)).1 nm m.id lz).1
+      (fun nm' hnm' => by rw [hstore]; exact h nm' (List.mem_cons_of_mem _ hnm'))
+    unfold cleanupStaleLoop
+    simp only [hn, Bool.not_true, Bool.false_eq_true, if_false, hr2, h2, h3, hc, if_true]
+    rw [hstore] at ih
+    exact ih
+
 end Ldk.MonP
